@@ -160,3 +160,67 @@ func zzFileSize(lo, hi int64) int64 {
 	}
 	return classes[c]
 }
+
+// VH_C03_two_files: one provider listed on two files in the same reward block. Each file is judged on its
+// own: the provider stays on the files it proved, is removed from the ones it missed, and its burn counter
+// rises by one per missed file.
+func VH_C03_two_files() {
+	e := zzSetupClosed()
+	C := zzverif.NondetRange("released.ujkl", 0, 100_000_000_000_000_000)
+	zzverif.Override(zzPullFn, func(k Keeper, ctx sdk.Context) sdk.Coins {
+		coins := sdk.NewCoins(sdk.NewInt64Coin("ujkl", C))
+		e.bank.MintCoins(ctx, types.ModuleName, coins)
+		return coins
+	})
+	prover := zzverif.NondetAddr("prover")
+	acc, _ := sdk.AccAddressFromBech32(prover)
+	zzverif.Assume(zzverif.And(!zzverif.Blocked(acc), !zzverif.IsModuleAddr(acc)))
+	burned0 := zzverif.NondetRange("prover.burned", 0, 1<<30)
+	e.k.SetProviders(e.ctx, types.Providers{Address: prover, Ip: "https://node.example", Totalspace: "1000", BurnedContracts: strconv.FormatInt(burned0, 10), Creator: prover})
+	type fileCase struct {
+		f   types.UnifiedFile
+		key string
+		met bool
+	}
+	var files []fileCase
+	for i, merkle := range []string{"merkle-root-0001", "merkle-root-0002"} {
+		tag := "file" + strconv.Itoa(i)
+		f := types.UnifiedFile{Merkle: []byte(merkle), Owner: "jkl1g9q5zs2pg9q5zs2pg9q5zs2pg9q5zs2p2trkks", Start: zzverif.NondetRange(tag+".start", 0, 1<<40),
+			FileSize: zzverif.NondetRange(tag+".size", 1, 1<<40), ProofInterval: zzverif.NondetRange(tag+".interval", 2, 1<<40), MaxProofs: 3, Note: "{}"}
+		zzverif.Assume(f.Start <= e.h)
+		young := f.Start+f.ProofInterval >= e.h
+		j := zzverif.NondetRange(tag+".window.index", 0, 1<<40)
+		ws := zzverif.ZOf(f.Start).Add(zzverif.ZOf(j).Mul(zzverif.ZOf(f.ProofInterval)))
+		zzverif.Assume(ws.Le(zzverif.ZOf(e.h)) && zzverif.ZOf(e.h).Lt(ws.Add(zzverif.ZOf(f.ProofInterval))))
+		last := zzverif.NondetRange(tag+".lastProven", 0, 1<<40)
+		zzverif.Assume(last <= e.h)
+		c := fileCase{key: f.MakeProofKey(prover)}
+		c.met = zzverif.Or(young, zzverif.ZOf(last).Ge(ws.Sub(zzverif.ZOf(f.ProofInterval))))
+		f.Proofs = []string{c.key}
+		e.k.SetProof(e.ctx, types.FileProof{Prover: prover, Merkle: f.Merkle, Owner: f.Owner, Start: f.Start, LastProven: last})
+		e.k.SetFile(e.ctx, f)
+		c.f = f
+		files = append(files, c)
+	}
+	panicked := zzverif.Try(func() { e.k.ManageRewards(e.ctx) })
+	zzverif.Assert(!panicked, "C03/reward-block-does-not-panic")
+	if panicked {
+		return
+	}
+	missed := int64(0)
+	for _, c := range files {
+		file, found := e.k.GetFile(e.ctx, c.f.Merkle, c.f.Owner, c.f.Start)
+		_, hasProof := e.k.GetProofWithBuiltKey(e.ctx, []byte(c.key))
+		if c.met {
+			zzverif.Assert(found && file.ContainsProver(prover), "C03/proven-prover-stays-listed")
+			zzverif.Assert(hasProof, "C03/proven-prover-keeps-proof-record")
+		} else {
+			missed++
+			zzverif.Assert(!found || !file.ContainsProver(prover), "C03/missed-prover-removed")
+			zzverif.Assert(!hasProof, "C03/missed-prover-proof-record-deleted")
+		}
+	}
+	prov, _ := e.k.GetProviders(e.ctx, prover)
+	zzverif.Assert(prov.BurnedContracts == strconv.FormatInt(burned0+missed, 10), "C03/burn-counter-rises-once-per-missed-file")
+	zzverif.Cover("C03/two-files-done")
+}
